@@ -325,6 +325,42 @@ def _replay_table(cex):
 # ---------------------------------------------------------------------------------------
 
 
+def replay_edges(cex):
+    """installed library: head/tail with 0, negative and over-long n; feature names colliding with coordinate columns are rejected by table operations;
+    appending does not change tables that share feature frames with the receiver"""
+    with load.real_modules():
+        from acryo import Molecules
+
+        bad = []
+        m = Molecules(np.arange(18.0).reshape(6, 3), features={"t": list(range(6))})
+        for name, got, want in (("tail(0)", m.tail(0), []), ("head(0)", m.head(0), []), ("tail(2)", m.tail(2), [4, 5]), ("head(2)", m.head(2), [0, 1]), ("tail(9)", m.tail(9), list(range(6))),
+                                ("head(-2)", m.head(-2), [0, 1, 2, 3]), ("tail(-2)", m.tail(-2), [2, 3, 4, 5])):
+            tl = got.features["t"].to_list() if len(got) else []
+            if tl != want or len(got) != len(want) or (len(got) and not np.allclose(got.pos[:, 0], np.array(want) * 3.0)):
+                bad.append({"op": name, "rows": tl, "want": want})
+        for col in ("z", "yvec"):
+            mm = Molecules(np.zeros((3, 3)), features={col: [1, 2, 3]})
+            for opn, op in (("to_dataframe", lambda x: x.to_dataframe()), ("head", lambda x: x.head(1)), ("filter", lambda x: x.filter(pl.col(col) > 1)), ("sort", lambda x: x.sort(col))):
+                try:
+                    op(mm)
+                    bad.append({"feature named like a coordinate column": col, "accepted by": opn})
+                except ValueError:
+                    pass
+        a = Molecules(np.zeros((3, 3)), features={"v": [1, 2, 3]})
+        b = Molecules(np.ones((2, 3)), features={"v": [4, 5]})
+        snap = a.copy()
+        a.append(b)
+        if len(snap) != 3 or len(snap.features) != 3 or len(a) != 5 or len(a.features) != 5:
+            bad.append({"snap = a.copy(); a.append(b)": {"snap": [len(snap), len(snap.features)], "a": [len(a), len(a.features)]}})
+        p_, q_ = Molecules(np.zeros((2, 3)), features={"v": [1, 2]}), Molecules(np.ones((3, 3)), features={"v": [3, 4, 5]})
+        acc = Molecules.empty()
+        acc.append(p_)
+        acc.append(q_)
+        if len(p_) != 2 or len(p_.features) != 2 or len(acc) != 5 or len(acc.features) != 5:
+            bad.append({"acc = empty; acc.append(p); acc.append(q)": {"p": [len(p_), len(p_.features)], "acc": [len(acc), len(acc.features)]}})
+        return len(bad) > 0, {"n": len(bad), "examples": bad[:5]}
+
+
 def replay_mixed(cex):
     with load.real_modules():
         return _replay_mixed(cex)
@@ -773,7 +809,7 @@ def run(tier, procs=None, only=None):
 
 
 # every real-library oracle of this property (each returns (reproduced, detail)); used to confirm structural facts that carry no replay of their own
-ALL_REPLAYS = [replay_table, replay_mixed, replay_history, replay_collide]
+ALL_REPLAYS = [replay_table, replay_edges, replay_mixed, replay_history, replay_collide]
 
 
 def replay(data):
